@@ -283,6 +283,15 @@ fn run_cases(cases: Vec<CrashCase>, cfg: &Cfg, out: &mut Out, generation: u32, s
         if let Some(r) = v.recovered {
             out.count(if r + 1 == cases[i].allowed.points.len() { "recovered_newest_allowed" } else { "recovered_older_allowed" });
         }
+        if v.ok && generation == 1 && (i * 2654435761) % 97 < 1 {
+            // function correspondence of the recovery model: the Lean `recover` on the same image
+            // must choose a slot whose decoded contents are what the real recovery served
+            if let Some(r) = v.recovered {
+                let path = crate::image::save("crash", &cases[i].image);
+                out.line(&format!("img recover {path} {} {}", cfg.page, cases[i].allowed.points[r].0.tablespecs()));
+                out.count("recover_images");
+            }
+        }
         if !v.ok {
             out.oracle_fail(format!("crash-recovery|generation {generation}: {} -> {}", cases[i].desc, v.what));
         } else if let Some((img, l)) = log {
@@ -297,7 +306,7 @@ pub fn run(args: &Args) {
     let mut out = Out::new(&args.out);
     let mut rng = Rng::new(args.seed ^ 0xC01);
     out.comment(&format!("C01 crash seed={} thorough={}", args.seed, args.thorough));
-    let histories = if args.thorough { 40 } else { 5 };
+    let histories = if args.thorough { 40 } else { 4 };
     let only: Option<usize> = args.extra.iter().position(|a| a == "--only-case").and_then(|i| args.extra.get(i + 1)).and_then(|x| x.parse().ok());
     for case_index in 0..histories {
         let mut r = rng.fork();
@@ -354,8 +363,25 @@ pub fn run(args: &Args) {
         drop(w);
         out.add("log_events", full_log.len() as u64);
         out.add("log_syncs", full_log.iter().filter(|e| matches!(e, Ev::Sync)).count() as u64);
+        if ok && case_index < (if args.thorough { 8 } else { 2 }) {
+            // the recorded storage stream for the Lean protocol monitor
+            out.line(&format!("st begin {} {}", cfg.page, crate::out::hex(&initial[..320.min(initial.len())])));
+            out.line(&format!("st image {}", crate::image::save("st", &initial)));
+            for e in &full_log {
+                match e {
+                    Ev::Write { off: 0, data } => out.line(&format!("st h {}", crate::out::hex(data))),
+                    Ev::Write { off, data } => out.line(&format!("st w {off} {}", crate::out::hex(data))),
+                    Ev::SetLen(n) => out.line(&format!("st setlen {n}")),
+                    Ev::Sync => out.line("st sync"),
+                    Ev::Close => out.line("st close"),
+                    Ev::Marker(m) => out.line(&format!("st mark {m}")),
+                }
+            }
+            out.line("st end");
+            out.count("storage_streams");
+        }
         if ok {
-            let budget = if args.thorough { 600 } else { 120 };
+            let budget = if args.thorough { 600 } else { 90 };
             let cases = enumerate(&initial, &full_log, &records, &mut r, args.thorough, budget);
             out.line(&format!("crash history events={} cut-cases={}", full_log.len(), cases.len()));
             let mut second: Vec<(Vec<u8>, Vec<Ev>, Allowed, String)> = vec![];
